@@ -194,3 +194,13 @@ MUTANTS += [
     dict(id="x04-counting-loop-one-too-far", base="benign2/C14/A.diff", fires=["C04"], key="is_known_alg", edits=[("src/webauthn.rs",
          "while i < COUNT_KNOWN_ALGS {", "while i <= COUNT_KNOWN_ALGS {")]),
 ]
+
+# mutated refactorings of the encoder framing (writer form / split_at_mut form)
+MUTANTS += [
+    dict(id="x17-writer-cursor-skips-a-byte", base="benign2/C17/B.diff", fires=["C17", "C02", "C03"], key="only-encoder-writes", edits=[("src/ctap2.rs",
+         "let mut cursor = &mut *data;", "let mut cursor = &mut data[1..];")]),
+    dict(id="x17-writer-length-plus-two", base="benign2/C17/B.diff", fires=["C17", "C02", "C03"], key="final-length", edits=[("src/ctap2.rs",
+         "buffer.resize_default(body_len + 1).ok();", "buffer.resize_default(body_len + 2).ok();")]),
+    dict(id="x17-split-at-status-from-unwrap-or-one", base="benign3/C17/B.diff", fires=["C17", "C02", "C03"], key="final-length", edits=[("src/ctap2.rs",
+         "buffer.truncate(Self::HEADER_LEN + body_len.unwrap_or(0));", "buffer.truncate(Self::HEADER_LEN + body_len.unwrap_or(1));")]),
+]
